@@ -28,16 +28,59 @@ pub fn line_changes_from_diff(
             // Deleted files are ignored.
             continue;
         }
+        let target_file = unquote_git_path(&patched_file.target_file);
         result.insert(
-            patched_file
-                .target_file
+            target_file
                 .strip_prefix("b/")
-                .unwrap_or(&patched_file.target_file)
+                .unwrap_or(&target_file)
                 .into(),
             line_changes(&patched_file),
         );
     }
     Ok(result)
+}
+
+/// Returns the path as git meant it: git writes a path that contains "unusual" characters (non-ASCII
+/// bytes, double quotes, backslashes, control characters) in double quotes with C-style escapes,
+/// e.g. `"b/caf\303\251.py"`.
+fn unquote_git_path(path: &str) -> String {
+    let Some(quoted) = path
+        .strip_prefix('"')
+        .and_then(|path| path.strip_suffix('"'))
+    else {
+        return path.to_string();
+    };
+    let mut unquoted = Vec::with_capacity(quoted.len());
+    let mut bytes = quoted.bytes();
+    while let Some(byte) = bytes.next() {
+        if byte != b'\\' {
+            unquoted.push(byte);
+            continue;
+        }
+        match bytes.next() {
+            Some(b'a') => unquoted.push(0x07),
+            Some(b'b') => unquoted.push(0x08),
+            Some(b't') => unquoted.push(b'\t'),
+            Some(b'n') => unquoted.push(b'\n'),
+            Some(b'v') => unquoted.push(0x0b),
+            Some(b'f') => unquoted.push(0x0c),
+            Some(b'r') => unquoted.push(b'\r'),
+            Some(first @ b'0'..=b'3') => {
+                // Three octal digits.
+                let mut value = first - b'0';
+                for _ in 0..2 {
+                    if let Some(digit @ b'0'..=b'7') = bytes.next() {
+                        value = value * 8 + (digit - b'0');
+                    }
+                }
+                unquoted.push(value);
+            }
+            // `\\` and `\"` (and anything else) stand for the character itself.
+            Some(other) => unquoted.push(other),
+            None => unquoted.push(b'\\'),
+        }
+    }
+    String::from_utf8_lossy(&unquoted).into_owned()
 }
 
 fn line_changes(patched_file: &PatchedFile) -> Vec<LineChange> {
